@@ -72,7 +72,9 @@ CHECKS = {
         "assumptions": COMMON_ASSUME + ["boundaries outside 1951..2048 (zlint's year-0 'ZeroDate') cannot be approached from both sides in UTCTime and are skipped in the sweep"],
     },
     "C04": {
-        "legs": legs_with_mock("^TestC04$", 12, 16),
+        "legs": lambda tier: legs_with_mock("^TestC04$", 12, 16)(tier) + [
+            # certificates of different scope linted side by side (quick ones next to ones with very long lists), race-detector build
+            {"pkg": "racecheck", "run": "^TestConcurrentScope$", "shards": 2 if tier == "quick" else 8, "race": True, "replay_pkg": False}],
         "rule": "mock leg: configurable mocks are configured with a scalar and two slices, report what they were handed, mutate it in place, and are run twice per registry (every instance is owed a freshly decoded configuration); "
                 "framework results are compared with the deprecated Registry.ByName(...).Execute path too. enumerated single-feature scope matrix ({no EKU, each of 8 EKUs} x {no policy, each of 18 scope OIDs, anyPolicy, unrelated} x 9 e-mail-SAN variants (absent, rfc822Name, SmtpUTF8Mailbox well-formed / Latin-1 / OCTET STRING / trailing element / empty wrapper / empty string, empty rfc822Name) on the 3 "
                 "corpus certificates that are home to most TLS/SMIME/CS lints; the same scope variants are objects of the mock leg, where run-time lints of every source meet them) + a soak history + corpus + rapid objects with openers, filters and configurations. Oracle: framework result == "
